@@ -47,8 +47,11 @@ NoFut == INSTANCE RaftCore WITH Dev <- Dev \ {"future_keyed_by_index_only"}
 NoStale == INSTANCE RaftCore WITH Dev <- Dev \ {"stale_term_ae_response"}
 NoOldCommit == INSTANCE RaftCore WITH Dev <- Dev \ {"commit_counts_old_term_entry"}
 NoTally == INSTANCE RaftCore WITH Dev <- Dev \ {"vote_tally_survives_retry"}
+NoSplice == INSTANCE RaftCore WITH Dev <- Dev \ {"ae_replaces_suffix"}
+NoLonger == INSTANCE RaftCore WITH Dev <- Dev \ {"vote_prefers_longer_log"}
 DevOrder == <<"same_term_ae_clears_vote", "match_is_follower_last_index", "future_keyed_by_index_only",
-              "stale_term_ae_response", "commit_counts_old_term_entry", "vote_tally_survives_retry">>
+              "stale_term_ae_response", "commit_counts_old_term_entry", "vote_tally_survives_retry",
+              "ae_replaces_suffix", "vote_prefers_longer_log">>
 Firing(s, self, st, r) ==
     (IF NoVote!OnStep(s, self, st) # r THEN {DevOrder[1]} ELSE {})
     \cup (IF NoMatch!OnStep(s, self, st) # r THEN {DevOrder[2]} ELSE {})
@@ -56,6 +59,8 @@ Firing(s, self, st, r) ==
     \cup (IF NoStale!OnStep(s, self, st) # r THEN {DevOrder[4]} ELSE {})
     \cup (IF NoOldCommit!OnStep(s, self, st) # r THEN {DevOrder[5]} ELSE {})
     \cup (IF NoTally!OnStep(s, self, st) # r THEN {DevOrder[6]} ELSE {})
+    \cup (IF NoSplice!OnStep(s, self, st) # r THEN {DevOrder[7]} ELSE {})
+    \cup (IF NoLonger!OnStep(s, self, st) # r THEN {DevOrder[8]} ELSE {})
 
 ToSet(q) == { q[j] : j \in 1..Len(q) }
 RECURSIVE SeqBag(_)
